@@ -50,6 +50,25 @@ CHECKS = {
                       'evaluations = interpreter processes; distinct_nontrivial = distinct (text, config, environment) digests'),
                 assumptions=['the debug section (gzip+pickle) is excluded, as the property says',
                              'two compilations interleaved on two threads are not simulated (no thread-safety claim)']),
+    'C18': dict(mod='c18', level='fault_enumeration',
+                rule=('scenario = INPUT statement (1-4 targets: scalars / array elements / record fields of every builtin type; '
+                      'prompt forms none, \"p\";, \"p\", and leading ;) placed at module level, in a GOSUB routine or in a SUB '
+                      '(targets by reference) x response history (0-4 rejected lines of the classes wrong field count, '
+                      'alphabetic text, out-of-range integer, Python-only spelling, at a drawn field position, then an accepted '
+                      'line) x config x peripherals (simulated / real dumb terminal over simulated stdio); then a device '
+                      'failure and an interrupt inside every device call of the statement and end of input at every attempt. '
+                      'evaluations = simulated runs; distinct_nontrivial = distinct (text, config, responses, plan) digests'),
+                assumptions=['only response classes whose verdict the property statement makes unambiguous are generated (no 1E5 into INTEGER, no &H10, no quoted fields, no empty numeric field, no float text for integer targets)',
+                             'values are read as typed PRINT operands of the tail, not as formatted text']),
+    'C12': dict(mod='c12', level='exploration',
+                rule=('scenario = program (-g, -O0..-O2) x device script x history of 3-30 operator commands (step, next, '
+                      'stepi, nexti, continue, break line/routine/address, delbr, read-only commands, garbage), padded with '
+                      'delete-all + continue. The free run of the same module gives the per-tick trace (pc, innermost '
+                      'statement, frame depth, device-history length) the property sentences are evaluated over. '
+                      'evaluations = compilations + debugged runs; distinct_nontrivial = distinct (text, config, command list) '
+                      'digests that ran to the end; distinct states = (command, statement kind at pc, frame depth, halted?)'),
+                assumptions=['statement records and line numbers are read from the debug map by simqb\'s own reader (their soundness is C11)',
+                             'a step that is stopped early by a user breakpoint is accepted']),
 }
 
 
